@@ -1647,3 +1647,119 @@ func structValueFieldCases(v ssa.Value, idx int, blk *ssa.BasicBlock, depth int)
 	}
 	return nil
 }
+
+
+// sameValue: a and b denote one and the same value: identical, or both resolve (through single-assignment locals and
+// the fields of small local structs) to the same defining value.
+func sameValue(a, b ssa.Value) bool {
+	if a == b {
+		return true
+	}
+	ra, rb := resolve(a), resolve(b)
+	if ra == rb {
+		return true
+	}
+	// two loads of the same field of the same local struct (assigned as a whole from a call result)
+	la, ok1 := ra.(*ssa.UnOp)
+	lb, ok2 := rb.(*ssa.UnOp)
+	if ok1 && ok2 && la.Op == token.MUL && lb.Op == token.MUL {
+		fa, ok1 := la.X.(*ssa.FieldAddr)
+		fb, ok2 := lb.X.(*ssa.FieldAddr)
+		if ok1 && ok2 && fa.Field == fb.Field {
+			if aa, ok := fa.X.(*ssa.Alloc); ok && fa.X == fb.X {
+				// no store to that field between is assumed when the local has a single whole-struct store
+				n := 0
+				for _, r := range refsOf(aa) {
+					if st, ok := r.(*ssa.Store); ok && st.Addr == ssa.Value(aa) {
+						n++
+					}
+				}
+				return n <= 1
+			}
+		}
+	}
+	return false
+}
+
+// callPart: v is component idx of the result of a call - an element of its result tuple, or (when the callee returns one
+// small struct instead) field idx of that struct, read directly or through a local the result was stored in.
+func callPart(v ssa.Value) (*ssa.Call, int, bool) {
+	switch x := stripConv(v).(type) {
+	case *ssa.Extract:
+		if call, ok := x.Tuple.(*ssa.Call); ok {
+			return call, x.Index, true
+		}
+	case *ssa.Field:
+		base := stripConv(x.X)
+		if ld, ok := base.(*ssa.UnOp); ok && ld.Op == token.MUL {
+			if al, ok := ld.X.(*ssa.Alloc); ok {
+				base = allocSingleStore(al)
+			}
+		}
+		if call, ok := base.(*ssa.Call); ok {
+			return call, x.Field, true
+		}
+	case *ssa.UnOp:
+		if x.Op == token.MUL {
+			if fa, ok := x.X.(*ssa.FieldAddr); ok {
+				if al, ok := fa.X.(*ssa.Alloc); ok {
+					if call, ok := allocSingleStore(al).(*ssa.Call); ok {
+						return call, fa.Field, true
+					}
+				}
+			}
+		}
+	}
+	return nil, 0, false
+}
+
+// returnPart: component idx of what r returns: Results[idx], or field idx of the single struct result when that struct
+// is assembled in a local at the return (nil if it cannot be read off).
+func returnPart(r *ssa.Return, idx int) ssa.Value {
+	if len(r.Results) > 1 || len(r.Results) == 0 {
+		if idx < len(r.Results) {
+			return r.Results[idx]
+		}
+		return nil
+	}
+	if _, isStruct := r.Results[0].Type().Underlying().(*types.Struct); !isStruct {
+		if idx == 0 {
+			return r.Results[0]
+		}
+		return nil
+	}
+	ld, ok := stripConv(r.Results[0]).(*ssa.UnOp)
+	if !ok || ld.Op != token.MUL {
+		return nil
+	}
+	al, ok := ld.X.(*ssa.Alloc)
+	if !ok {
+		return nil
+	}
+	// the store of that field that reaches this return: the one in the return's own block, else the only one
+	var cands []*ssa.Store
+	for _, ref := range refsOf(al) {
+		if fa, ok := ref.(*ssa.FieldAddr); ok && fa.Field == idx {
+			for _, r2 := range refsOf(fa) {
+				if st, ok := r2.(*ssa.Store); ok && st.Addr == ssa.Value(fa) {
+					cands = append(cands, st)
+				}
+			}
+		}
+	}
+	for _, st := range cands {
+		if st.Block() == r.Block() {
+			return st.Val
+		}
+	}
+	if len(cands) == 1 {
+		return cands[0].Val
+	}
+	if len(cands) == 0 {
+		// field left at its zero value
+		if st, ok := al.Type().(*types.Pointer).Elem().Underlying().(*types.Struct); ok && idx < st.NumFields() {
+			return ssa.NewConst(nil, st.Field(idx).Type())
+		}
+	}
+	return nil
+}
